@@ -44,10 +44,23 @@ static void summary (int w)
   if (getenv ("PTCP_DEBUG")) { P ("{"); for (GList *i = p->slist.head; i; i = i->next) { SSegment *g = i->data; P ("%u+%u/x%u/f%u ", g->seq, g->len, g->xmit, g->flags); } P ("}"); }
 }
 
+/* A datagram reaches the socket either through pseudo_tcp_socket_notify_packet or - as in the agent (agent_recv_message_unlocked) - through
+ * pseudo_tcp_socket_notify_message with a 24-byte header buffer and a body buffer; both must behave alike.  Every second delivery takes the
+ * message path; the body buffer is exactly sized, so that ASan sees any access beyond the datagram. */
+static unsigned notify_ctr;
+static gboolean notify_any (PseudoTcpSocket *sk, const char *d, size_t n)
+{
+  if ((notify_ctr++ & 1) == 0) return pseudo_tcp_socket_notify_packet (sk, d, n);
+  guint8 *hdr = malloc (24); memset (hdr, 0xaa, 24); memcpy (hdr, d, n < 24 ? n : 24);
+  size_t bl = n > 24 ? n - 24 : 0; guint8 *body = malloc (bl ? bl : 1); if (bl) memcpy (body, d + 24, bl);
+  GInputVector v[2] = { { hdr, 24 }, { body, bl } }; NiceInputMessage m = { v, 2, NULL, n };
+  gboolean r = pseudo_tcp_socket_notify_message (sk, &m); free (hdr); free (body); return r;
+}
+
 static int deliver (size_t i)
 {
   int w = 1 - pkts[i].from; unsigned char *c = malloc (pkts[i].n ? pkts[i].n : 1); memcpy (c, pkts[i].b, pkts[i].n);
-  int r = pseudo_tcp_socket_notify_packet (S[w], (char *) c, pkts[i].n); free (c);
+  int r = notify_any (S[w], (char *) c, pkts[i].n); free (c);
   if (nhist < (1 << 16)) hist[nhist++] = i;
   return r;
 }
@@ -96,15 +109,15 @@ int main (void)
       case 'm': pseudo_tcp_socket_notify_mtu (S[w], atoi (arg)); break;
       case 'l': wr_limit[w] = strtoul (arg, NULL, 10); break;
       case 'd': { size_t i = strtoul (op + 1, NULL, 10); if (i < npkts) { w = 1 - pkts[i].from; unsigned char *c = malloc (pkts[i].n ? pkts[i].n : 1); memcpy (c, pkts[i].b, pkts[i].n);
-                  P ("=%d", (int) pseudo_tcp_socket_notify_packet (S[w], (char *) c, pkts[i].n)); free (c); } else { w = -1; P ("=x"); } break; }
+                  P ("=%d", (int) notify_any (S[w], (char *) c, pkts[i].n)); free (c); } else { w = -1; P ("=x"); } break; }
       case 'j': { /* mutated delivery: jA<idx>:<off>=<val>,<off>=<val>... */
                   size_t i = strtoul (arg, NULL, 10); char *m = strchr (arg, ':');
                   if (i < npkts) { size_t n = pkts[i].n; unsigned char *c = malloc (n ? n : 1); memcpy (c, pkts[i].b, n);
                     while (m && *m) { m++; unsigned off, val; if (sscanf (m, "%u=%u", &off, &val) == 2 && off < n) c[off] = val;
                       else if (sscanf (m, "%u~%u", &off, &val) == 2 && off + 4 <= n) { /* 32-bit big-endian field decreased by val */ guint32 f = ((guint32) c[off] << 24 | c[off + 1] << 16 | c[off + 2] << 8 | c[off + 3]) - val; c[off] = f >> 24; c[off + 1] = f >> 16; c[off + 2] = f >> 8; c[off + 3] = f; }
                       m = strchr (m, ','); }
-                    P ("=%d", (int) pseudo_tcp_socket_notify_packet (S[w], (char *) c, n)); free (c); } else { P ("=x"); w = -1; } break; }
-      case 'i': { size_t n; unsigned char *c = hc_unhex_tight (arg, &n); P ("=%d", (int) pseudo_tcp_socket_notify_packet (S[w], (char *) c, n)); break; }
+                    P ("=%d", (int) notify_any (S[w], (char *) c, n)); free (c); } else { P ("=x"); w = -1; } break; }
+      case 'i': { size_t n; unsigned char *c = hc_unhex_tight (arg, &n); P ("=%d", (int) notify_any (S[w], (char *) c, n)); break; }
       case 'N': if (npend) { size_t i = take_pending (0); w = 1 - pkts[i].from; P ("%zu=%d", i, deliver (i)); } else { w = -1; P ("=x"); } break;
       case 'X': if (npend) { size_t i = take_pending (0); P ("%zu", i); } else P ("=x"); w = -1; break;
       case 'Z': { /* total outage: every pending packet is lost */ unsigned k = 0; while (npend) { take_pending (0); k++; } P ("%u", k); w = -1; break; }
